@@ -1,18 +1,18 @@
 CONSTANTS
   MaxObj = 3
-  MaxSteps = 6
-  CreateClasses = {"P","C"}
-  QueryClasses = {"P","C"}
+  MaxSteps = 5
+  CreateClasses = {"Mid","Leaf"}
+  QueryClasses = {"Base","Mid"}
   AllowClear = FALSE
-  AllowRelate = TRUE
-  AllowQueryX = TRUE
+  AllowRelate = FALSE
+  AllowQueryX = FALSE
   AllowSweep = FALSE
-  CopyModes = {}
+  CopyModes = {"copy","deepcopy","replace","from_dao"}
   UnregisteredModes = {}
   Hist = TRUE
   PopIdOfNone = FALSE
   StaleRelationIndex = FALSE
   DupSubclassList = FALSE
-  StrongExprTable = TRUE
+  StrongExprTable = FALSE
 SPECIFICATION Spec
 CONSTRAINT Emit
